@@ -519,6 +519,18 @@ impl Kind for KZbdd {
     fn internal_roots<'id>(m: &Mgr<'id, Self::F>) -> usize {
         m.num_levels() as usize
     }
+    fn internal_root_trees<'id>(m: &Mgr<'id, Self::F>) -> Vec<String> {
+        // the tautology chain: one stored reference per level (the chain node of that level)
+        let n = m.num_levels();
+        let l2v: Vec<u32> = (0..n).map(|l| m.level_to_var(l)).collect();
+        let mut out = Vec::new();
+        let mut cur = String::from("B");
+        for l in (0..n as usize).rev() {
+            cur = format!("(v{} {} {})", l2v[l], cur, cur);
+            out.push(cur.clone());
+        }
+        out
+    }
     fn ext(sc: &mut Bf<Self>, w: &[&str], ctx: &mut Ctx) -> Option<String> {
         let line = w.join(" ");
         let n = sc.n;
